@@ -116,13 +116,16 @@ func holeStr() string   { return string([]byte{holeByte("str", strFirst), holeBy
 // signedInts makes holeInt also produce negative numbers (SQL tiers).
 var signedInts = false
 
+// oneDigitInts makes holeInt produce single digits only (no forking on the digit count).
+var oneDigitInts = false
+
 // holeInt returns a 1-2 digit number as written and its value (no leading zero when 2 digits).
 func holeInt() (string, int) {
 	if signedInts && rtChoose("sign", 2) == 1 {
 		d := holeByte("digit", "123456789")
 		return string([]byte{'-', d}), -int(d - '0')
 	}
-	if rtChoose("digits", 2) == 0 {
+	if oneDigitInts || rtChoose("digits", 2) == 0 {
 		d := holeByte("digit", "0123456789")
 		return string([]byte{d}), int(d - '0')
 	}
